@@ -48,7 +48,7 @@ class Lexer(object):
     def t_ID(self, t):
         return t
 
-    @TOKEN(r"[\-\+]?((\d+\.\d*)|(\.\d+))([eE][\+\-]?\d+)?")
+    @TOKEN(r"[\-\+]?((((\d+\.\d*)|(\.\d+))([eE][\+\-]?\d+)?)|(\d+[eE][\+\-]?\d+))")
     def t_FLOAT(self, t):
         t.value = float(t.value)
         return t
